@@ -747,6 +747,9 @@ func genParserOps(r *RNG, spec *ParserSpec, g pgen, inputLen int) []Op {
 			if g.aliasReset && r.Chance(0.5) {
 				x = 3
 			}
+			if r.Chance(0.1) {
+				x = r.Pick(5, 6, 6)
+			}
 			ops = append(ops, Op{K: "Reset", N: n, X: x})
 			if n <= bs {
 				if n > remaining {
@@ -787,7 +790,11 @@ func genResetRecords(r *RNG, spec *ParserSpec, inputLen int) []Op {
 	n := 1 + r.Intn(minInt(bs, 300))
 	used := 0
 	for used+n <= inputLen && len(ops) < 120 {
-		ops = append(ops, Op{K: "Reset", N: n, X: r.Pick(1, 1, 1, 4, 2, 3)})
+		x := r.Pick(1, 1, 1, 4, 2, 3, 6, 6)
+		if r.Chance(0.04) {
+			x = 5 // empty, non-nil
+		}
+		ops = append(ops, Op{K: "Reset", N: n, X: x})
 		used += n
 		for i := minInt(n/bl+1, 6); i > 0; i-- {
 			op := Op{K: "Parse", Re: r.Chance(0.7)}
